@@ -3,6 +3,8 @@
 //   REJ msg=<text>           | cpu_us=... peak=... total=... maxreq=...
 //   DISAGREE <first> <> <second>      (two entry points for the same format gave different answers)
 // input lines:  B <hex WKB bytes> | H <hex of HEX text> | T <hex of WKT text> | J <hex of GeoJSON text>
+//               b | h | t = the same through reader objects with the option fix-structure ON (GEOSWKBReader_setFixStructure_r,
+//               GEOSWKTReader_setFixStructure_r); the buffer entry points have no options, so there is no second entry point to agree with
 // Every returned geometry is written (WKB, WKT), cloned, measured (area, length, numpoints), validated and destroyed.
 // Global operator new/delete are replaced to record the peak live bytes, the total and the largest single request made
 // during the read call (the library's allocations resolve to these definitions).
@@ -126,11 +128,12 @@ static std::vector<unsigned char> unhex(const char* s) {
 }
 
 static GEOSContextHandle_t H; static GEOSWKBReader* WR; static GEOSWKTReader* TR; static GEOSGeoJSONReader* JR;
+static GEOSWKBReader* WRF; static GEOSWKTReader* TRF;      // readers with fix-structure on
 static GEOSWKBWriter* WW; static GEOSWKTWriter* TW;
 
 static Outcome one(int entry, const std::vector<unsigned char>& in) {
     g_errs = 0; g_msg[0] = 0;
-    std::string txt; if (entry >= 4) txt.assign(in.begin(), in.end());
+    std::string txt; if (entry >= 4 && entry != 7 && entry != 8) txt.assign(in.begin(), in.end());
     static const unsigned char dummy = 0;
     const unsigned char* p = in.empty() ? &dummy : in.data();
     g_live = g_peak = g_total = g_maxreq = g_count = 0;
@@ -144,6 +147,9 @@ static Outcome one(int entry, const std::vector<unsigned char>& in) {
     case 4: g = GEOSWKTReader_read_r(H, TR, txt.c_str()); break;
     case 5: g = GEOSGeomFromWKT_r(H, txt.c_str()); break;
     case 6: g = GEOSGeoJSONReader_readGeometry_r(H, JR, txt.c_str()); break;
+    case 7: g = GEOSWKBReader_read_r(H, WRF, p, in.size()); break;
+    case 8: g = GEOSWKBReader_readHEX_r(H, WRF, p, in.size()); break;
+    case 9: g = GEOSWKTReader_read_r(H, TRF, txt.c_str()); break;
     }
     g_track = false; double t1 = cpu_now();
     Outcome o; o.us = t1 - t0; o.peak = g_peak; o.total = g_total; o.maxreq = g_maxreq; o.acc = g != nullptr;
@@ -174,6 +180,8 @@ int main(int argc, char** argv) {
     GEOSContext_setErrorMessageHandler_r(H, on_error, nullptr);
     GEOSContext_setNoticeMessageHandler_r(H, on_notice, nullptr);
     WR = GEOSWKBReader_create_r(H); TR = GEOSWKTReader_create_r(H); JR = GEOSGeoJSONReader_create_r(H);
+    WRF = GEOSWKBReader_create_r(H); GEOSWKBReader_setFixStructure_r(H, WRF, 1);
+    TRF = GEOSWKTReader_create_r(H); GEOSWKTReader_setFixStructure_r(H, TRF, 1);
     WW = GEOSWKBWriter_create_r(H); GEOSWKBWriter_setOutputDimension_r(H, WW, 4); GEOSWKBWriter_setIncludeSRID_r(H, WW, 1);
     TW = GEOSWKTWriter_create_r(H); GEOSWKTWriter_setOutputDimension_r(H, TW, 4);
     std::string line;
@@ -183,6 +191,7 @@ int main(int argc, char** argv) {
         std::vector<unsigned char> in = unhex(line.size() > 2 ? line.c_str() + 2 : "");
         int e0, e1;
         switch (mode) { case 'B': e0 = 0; e1 = 1; break; case 'H': e0 = 2; e1 = 3; break; case 'T': e0 = 4; e1 = 5; break; case 'J': e0 = 6; e1 = -1; break;
+                        case 'b': e0 = 7; e1 = -1; break; case 'h': e0 = 8; e1 = -1; break; case 't': e0 = 9; e1 = -1; break;
                         default: printf("?\n"); fflush(stdout); continue; }
         Outcome a = one(e0, in);
         std::string out = a.text;
@@ -196,6 +205,7 @@ int main(int argc, char** argv) {
         fflush(stdout);
     }
     GEOSWKBReader_destroy_r(H, WR); GEOSWKTReader_destroy_r(H, TR); GEOSGeoJSONReader_destroy_r(H, JR);
+    GEOSWKBReader_destroy_r(H, WRF); GEOSWKTReader_destroy_r(H, TRF);
     GEOSWKBWriter_destroy_r(H, WW); GEOSWKTWriter_destroy_r(H, TW);
     GEOS_finish_r(H);
     return 0;
